@@ -257,8 +257,8 @@ PROPS["C16"] = {
     "rule": ("every candidate BCP 47 calendar identifier (21; the 19 the crate accepts are the calendars under test) x ISO days: every day of the ISO years around each era boundary and epoch "
              "(-1..2, 7..9, 77..79, 283..285, 621..623, 1867..1869, 1911..1913, 1925..1927, 1988..1990, 2018..2020, -544..-542, -3762..-3759, -5494..-5491, -2637..-2635, "
              "-2333..-2331), every day of the modern period (quick 1990..2040, thorough 1800..2200) and every 13th/29th day of the surrounding centuries, 40 days at both limits, seeded "
-             "random days of the whole range; the astronomical calendars (chinese, dangi, islamic, islamic-umalqura) get the modern centuries and a handful of far dates because the "
-             "calendrical library needs milliseconds per far-away date. Per (calendar, day): all fields read through PlainDate::with_calendar; ISO date unchanged (and back through "
+             "random days of the whole range; the astronomical calendars (chinese, dangi, islamic, islamic-umalqura) get the modern centuries, random days of the ISO years 1..3000 (the window an exhaustive "
+             "scan of the two Islamic calendars covered) and a handful of far dates (outside 1..3000, one collapsed signature per calendar) because the calendrical library needs milliseconds per far-away date. Per (calendar, day): all fields read through PlainDate::with_calendar; ISO date unchanged (and back through "
              "iso8601); structural invariants; successor relation against the previous ISO day; rebuild through PlainDate::from_partial from year+monthCode+day, year+month+day, "
              "year+month+monthCode+day, era+eraYear+monthCode+day and every alias of the reported era, under reject and constrain; identifiers in upper and mixed case through "
              "from_str/from_utf8 with the canonical identifier reported. non-trivial = month, year or era boundary between consecutive days; distinct by (calendar, day)"),
